@@ -19,9 +19,13 @@ What is modelled, one Lean function per Rust function:
 * `Iq`, `Iq.count`, `Iq.get?` ↔ `IqSamples<T>`, `sample_count`, `get`.
 
 Numbers.  Durations, sample rates and paddings are exact dyadic rationals `Dy` (`m / 2^s`; every
-finite f64 is one).  The f64 product `duration * sample_rate` is modelled by the exact product; the
-correspondence harness only claims the exact model on inputs where the f64 product is exact (checked
-by the driver, `Run.lean`).  Sample values live in an abstract scalar type `K` (class `Scalar`): the
+finite f64 is one).  The product `duration * sample_rate` (and `pad * sample_rate`) is a parameter
+`fmul` of every function: the theorems instantiate it with the exact product `Dy.mul`; the driver
+(`Run.lean`) instantiates it with the f64-rounded product (again a dyadic) and reports on which cases
+the two coincide (tag `exact-product`), so the same model code is executed on every case.  `round`,
+`ceil`, the subtraction `fract - sample_count` and the range test are exact in f64; the comparison
+with `1.0 / (sample_rate * 100.0)` is modelled exactly (it can differ from the f64 comparison only when
+`|misalignment|` *equals* the rounded threshold; the driver evaluates both and flags a difference).  Sample values live in an abstract scalar type `K` (class `Scalar`): the
 model performs the same operations in the same order as the Rust code; theorems assume the
 commutative-ring/`cis` laws `Laws K`, the driver instantiates `K` with pairs of `Float`.
 Envelope shapes (gaussian, erf, cosine …) are an abstract function `env : Nat → K` of the time-step
@@ -72,8 +76,8 @@ Over exact rationals, with `x = m/p` the product and `r = rate.m / 2^rate.s`:
 `|x - n| >= 1/(100 r)`  ⇔  `|m - n p| * 100 * rate.m >= p * 2^rate.s` when `r > 0`; for `r < 0`
 `max_misalignment` is negative and the test always fires; for `r = 0` it is `+inf` and never fires.
 -/
-def resolveCount (duration rate : Dy) : Except SamplingErr Nat :=
-  let x := duration.mul rate
+def resolveCount (fmul : Dy → Dy → Dy) (duration rate : Dy) : Except SamplingErr Nat :=
+  let x := fmul duration rate
   let p := x.den
   let n := roundHA x.m p
   if n < 0 ∨ n ≥ u32Max then .error .outOfRange
@@ -85,8 +89,8 @@ def resolveCount (duration rate : Dy) : Except SamplingErr Nat :=
 def usizeMax : Nat := 18446744073709551615
 
 /-- `(pad * sample_rate).ceil() as usize` (saturating cast: negative ↦ 0, huge ↦ usize::MAX). -/
-def padSamples (pad rate : Dy) : Nat :=
-  let x := pad.mul rate
+def padSamples (fmul : Dy → Dy → Dy) (pad rate : Dy) : Nat :=
+  let x := fmul pad rate
   min (ceilDiv x.m x.den).toNat usizeMax
 
 /-! ## Scalars -/
@@ -150,8 +154,8 @@ inductive Resolved (K : Type) where
   | total (e : Explicit K)
 
 /-- `raw_resolve_with_sample_rate` (builtin.rs:245-298). -/
-def rawResolve {K : Type} [Scalar K] (c : Common K) (rate : Dy) : Resolved K :=
-  match resolveCount c.duration rate with
+def rawResolve {K : Type} [Scalar K] (fmul : Dy → Dy → Dy) (c : Common K) (rate : Dy) : Resolved K :=
+  match resolveCount fmul c.duration rate with
   | .error e => .err e
   | .ok n =>
     match c.scale.evalOr one, c.phase.evalOr zero, c.detuning.evalOr zero with
@@ -225,8 +229,9 @@ def flatPlaceholder {K : Type} [Scalar K] (c : Common K) (n : Nat) : Out K :=
 
 /-- `Flat::raw_iq_values_at_sample_rate` (builtin.rs:722-767).
 `iq? = none` models `Flat<Partial<Concrete>> { iq: None }` (concretize fails). -/
-def sampleFlat {K : Type} [Scalar K] (iq? : Option K) (c : Common K) (rate : Dy) : Out K :=
-  match rawResolve c rate with
+def sampleFlat {K : Type} [Scalar K] (fmul : Dy → Dy → Dy) (iq? : Option K) (c : Common K)
+    (rate : Dy) : Out K :=
+  match rawResolve fmul c rate with
   | .err e => .err e
   | .part n => flatPlaceholder c n
   | .total ex =>
@@ -243,8 +248,8 @@ def sampleFlat {K : Type} [Scalar K] (iq? : Option K) (c : Common K) (rate : Dy)
 /-- `BoxcarKernel::raw_iq_values_at_sample_rate` (builtin.rs:1035-1080); the waveform has no
 parameters of its own, so only the common parameters can be partial.
 `polar_to_rectangular(r, θ) = r · cis(2πθ)`. -/
-def sampleBoxcar {K : Type} [Scalar K] (c : Common K) (rate : Dy) : Out K :=
-  match rawResolve c rate with
+def sampleBoxcar {K : Type} [Scalar K] (fmul : Dy → Dy → Dy) (c : Common K) (rate : Dy) : Out K :=
+  match rawResolve fmul c rate with
   | .err e => .err e
   | .part n => flatPlaceholder c n
   | .total ex =>
@@ -264,16 +269,16 @@ def paddedEnv {K : Type} [Scalar K] (env : Nat → K) (left n : Nat) (j : Nat) :
 
 /-- Gaussian / DragGaussian / HermiteGaussian (`left = right = 0`, no usize addition) and
 ErfSquare / RaisedCosine (`padded = true`).  `wfKnown` = `waveform.concretize()` succeeds. -/
-def sampleEnv {K : Type} [Scalar K] (padded : Bool) (padL padR : Dy) (wfKnown : Bool)
-    (env : Nat → K) (c : Common K) (rate : Dy) : Out K :=
-  let left := if padded then padSamples padL rate else 0
-  let right := if padded then padSamples padR rate else 0
+def sampleEnv {K : Type} [Scalar K] (fmul : Dy → Dy → Dy) (padded : Bool) (padL padR : Dy)
+    (wfKnown : Bool) (env : Nat → K) (c : Common K) (rate : Dy) : Out K :=
+  let left := if padded then padSamples fmul padL rate else 0
+  let right := if padded then padSamples fmul padR rate else 0
   let zeroOrPlaceholder (n : Nat) : Out K :=
     let total := left + n + right
     if total > usizeMax then .crash
     else if scaleIsZero c then .samples (.flat zero total)
     else .placeholder (.vec (List.replicate total ()))
-  match rawResolve c rate with
+  match rawResolve fmul c rate with
   | .err e => .err e
   | .part n => zeroOrPlaceholder n
   | .total ex =>
@@ -310,14 +315,14 @@ structure Request (K : Type) where
 
 /-- `BuiltinWaveform::partial_iq_values_at_sample_rate` / `iq_values_at_sample_rate`
 (builtin.rs:687-720): dispatch on the kind. -/
-def sample {K : Type} [Scalar K] (r : Request K) : Out K :=
+def sample {K : Type} [Scalar K] (fmul : Dy → Dy → Dy) (r : Request K) : Out K :=
   match r.kind with
-  | .flat => sampleFlat (if r.wfKnown then some r.iq else none) r.common r.rate
-  | .boxcarKernel => sampleBoxcar r.common r.rate
+  | .flat => sampleFlat fmul (if r.wfKnown then some r.iq else none) r.common r.rate
+  | .boxcarKernel => sampleBoxcar fmul r.common r.rate
   | .gaussian | .dragGaussian | .hermiteGaussian =>
-    sampleEnv false r.padL r.padR r.wfKnown r.env r.common r.rate
+    sampleEnv fmul false r.padL r.padR r.wfKnown r.env r.common r.rate
   | .erfSquare | .raisedCosine =>
-    sampleEnv true r.padL r.padR r.wfKnown r.env r.common r.rate
+    sampleEnv fmul true r.padL r.padR r.wfKnown r.env r.common r.rate
 
 /-! ## Concretising a partial request ("once known") -/
 
